@@ -50,3 +50,61 @@ Proof.
   unfold build_step at 1. cbn [String.eqb Ascii.eqb Bool.eqb].
   destruct (mutate_paths maxl f2 muts) as [f3| | |]; cbn [fbind]; reflexivity.
 Qed.
+
+(* ---- base-image builds ------------------------------------------------------------------ *)
+Lemma build_steps_b_false : forall maxl users groups muts names st,
+  build_steps_b maxl false users groups muts names st = build_steps maxl users groups muts names st.
+Proof.
+  intros maxl users groups muts names. induction names as [|n t IH]; intro st; [reflexivity|].
+  cbn [build_steps_b build_steps]. unfold build_step_b. rewrite andb_false_r. cbn [andb].
+  destruct (build_step maxl users groups muts n st); cbn [fbind]; auto.
+Qed.
+(* without a base image the guarded pipeline is the pipeline *)
+Lemma build_image_b_false : forall maxl f users groups ra muts,
+  build_image_b maxl false f users groups ra muts = build_image maxl f users groups ra muts.
+Proof. intros. unfold build_image_b, build_image. apply build_steps_b_false. Qed.
+
+(* with a base image the accounts step is skipped (the guard read from the source):
+   the configured users and groups play no part, run-as is not resolved *)
+Lemma build_step_b_other : forall maxl b users groups muts n st,
+  c13_step n = false -> build_step_b maxl b users groups muts n st = FOk st.
+Proof.
+  intros maxl b users groups muts n st H. unfold build_step_b.
+  assert (E : String.eqb n "mutateAccounts" = false).
+  { unfold c13_step in H. apply orb_false_iff in H. destruct H as [H _]. apply orb_false_iff in H. apply H. }
+  rewrite E. cbn [andb]. apply build_step_other. exact H.
+Qed.
+Lemma build_steps_b_filter : forall maxl b users groups muts names st,
+  build_steps_b maxl b users groups muts names st = build_steps_b maxl b users groups muts (filter c13_step names) st.
+Proof.
+  intros maxl b users groups muts names. induction names as [|n t IH]; intro st; [reflexivity|].
+  cbn [build_steps_b filter]. destruct (c13_step n) eqn:E.
+  - cbn [build_steps_b]. destruct (build_step_b maxl b users groups muts n st); cbn [fbind]; auto.
+  - rewrite (build_step_b_other _ _ _ _ _ _ _ E). cbn [fbind]. apply IH.
+Qed.
+Lemma build_image_b_true : forall maxl f users groups ra muts,
+  build_image_b maxl true f users groups ra muts =
+  fdo f2 <- write_apko_config maxl f;
+  fdo f3 <- mutate_paths maxl f2 muts;
+  FOk (f3, ra).
+Proof.
+  intros. unfold build_image_b. rewrite build_steps_b_filter, steps_order_pinned.
+  cbn [build_steps_b]. unfold build_step_b at 1. change accounts_skipped_with_base_image with true.
+  cbn [String.eqb Ascii.eqb Bool.eqb andb fbind].
+  unfold build_step_b at 1. cbn [String.eqb Ascii.eqb Bool.eqb andb]. unfold build_step at 1. cbn [String.eqb Ascii.eqb Bool.eqb].
+  destruct (write_apko_config maxl f) as [f2| | |]; cbn [fbind]; try reflexivity.
+  unfold build_step_b at 1. cbn [String.eqb Ascii.eqb Bool.eqb andb]. unfold build_step at 1. cbn [String.eqb Ascii.eqb Bool.eqb].
+  destruct (mutate_paths maxl f2 muts) as [f3| | |]; cbn [fbind]; reflexivity.
+Qed.
+
+(* what is then left of etc/passwd and etc/group: the accounts step being skipped,
+   a node is changed only by etc/apko.json's Create/Chmod and by the declared path
+   mutations; in particular with no mutation touching them the two files are the
+   base image's, bit for bit *)
+Lemma build_image_b_true_no_paths : forall maxl f users groups ra f' ra',
+  build_image_b maxl true f users groups ra [] = FOk (f', ra') ->
+  ra' = ra /\ write_apko_config maxl f = FOk f'.
+Proof.
+  intros maxl f users groups ra f' ra' H. rewrite build_image_b_true in H.
+  destruct (write_apko_config maxl f) as [f2| | |]; cbn [fbind mutate_paths] in H; try discriminate. inversion H. auto.
+Qed.
